@@ -22,7 +22,7 @@ variable {κ α : Type} [Max α] [NatCast α]
 `new_rng, rng_sample = split(rng, 2)`, `samples = clip(dist.sample(seed=rng_sample, shape), 0, None)`,
 returns `(replace(rng=new_rng), samples)`. `draw seed n` is the raw sampler (the `n` elements of the requested shape). -/
 def sampleStep (split : κ → Nat → Nat → κ) (draw : κ → Nat → List α) (rng : κ) (n : Nat) : κ × List α :=
-  (sample_new_key split rng, (draw (sample_seed_key split rng) n).map sample_clip)
+  (sample_new_key split rng, (draw (sample_seed_key split rng) n).map delay_clip)
 
 /-- Successive calls `d, x₁ = d.sample(n₁); d, x₂ = d.sample(n₂); …` -/
 def sampleSeq (split : κ → Nat → Nat → κ) (draw : κ → Nat → List α) : κ → List Nat → List (List α)
@@ -47,7 +47,7 @@ end Sampling
 /-! ## Grid quantile: `mixture_distribution_quantiles` -/
 
 section Grid
-variable {α : Type} [LT α] [DecidableLT α]
+variable {α : Type} [LT α] [DecidableLT α] [LE α] [DecidableLE α]
 
 /-- index of the first `true`, if any -/
 def firstTrue : List Bool → Option Nat
@@ -68,7 +68,7 @@ end Grid
 /-! ## Estimator: `GMMEstimator.get_dist` -/
 
 section Estimator
-variable {α : Type} [Add α] [Sub α] [Mul α] [Div α] [LT α] [DecidableLT α] [NatCast α]
+variable {α : Type} [Add α] [Sub α] [Mul α] [Div α] [LT α] [DecidableLT α] [LE α] [DecidableLE α] [NatCast α]
 
 /-- the pruning loop of `get_dist`:
 `for val in w: if prune_cum + val < 1 - percentile: prune_idx += 1; prune_cum += val  else: break`, then `w[prune_idx:]` -/
